@@ -211,6 +211,14 @@ func callIntrinsic(fr *frame, fn *ssa.Function, args []value) (value, bool) {
 		itf := args[0].(iface)
 		cp := snapVal(itf.v, 0)
 		return iface{itf.t, cp}, true
+	case "zzvFaultPath":
+		// selects the fault mode of the I/O stubs and returns the path to save to
+		k := int(asInt64(x.concretize(args[0], "fault kind")))
+		w := x.world()
+		w.faultKind = k
+		return [...]string{"/zzv/ok/out.docx", "/zzv/notadir/x/out.docx", "/zzv/isadir", "/dev/full"}[k], true
+	case "zzvFaultsInjected":
+		return len(x.world().failed), true
 	case "zzvSameShape":
 		return x.deepEq(args[0], args[1], map[[2]*value]bool{}, 0), true
 	case "zzvIsSymbolic":
